@@ -8,6 +8,21 @@ use rand_chacha::ChaCha20Rng;
 pub fn eval(case: &str) -> Out {
     let w: Vec<&str> = case.split(' ').collect();
     if w.len() != 5 { return Out::ok("harnesserr args".into()); }
+    if w[1] == "blockrep" {
+        // a block built in memory from `count` copies of one transaction (counts the decoder's allocation cap does not admit)
+        let f: Vec<&str> = w[4].split(',').collect();
+        if f.len() != 3 { return Out::ok("harnesserr blockrep".into()); }
+        let (h, n, t) = match (unhex(f[0]).and_then(|b| deserialize::<elements::BlockHeader>(&b).ok()), f[1].parse::<usize>().ok(), unhex(f[2]).and_then(|b| deserialize::<Transaction>(&b).ok())) {
+            (Some(h), Some(n), Some(t)) => (h, n, t), _ => return Out::ok("err".into()) };
+        let bl = Block { header: h, txdata: vec![t; n] };
+        let (size, weight) = (bl.size(), bl.weight());
+        let full = ref_block(&bl).len();
+        let hdr = { let mut o = Vec::new(); ref_header(&mut o, &bl.header, true); o.len() } + { let mut o = Vec::new(); ref_varint(&mut o, bl.txdata.len() as u64); o.len() };
+        let mut fail = None;
+        if size != full { fail = Some("block-size-vs-consensus|Block::size() of a block built in memory differs from the length of its consensus serialization (reference encoder)".to_string()); }
+        else if weight != 4 * hdr + bl.txdata.iter().map(|t| { let mut s = t.clone(); for i in &mut s.input { i.witness = TxInWitness::default(); } for o in &mut s.output { o.witness = TxOutWitness::default(); } 3 * ref_tx(&s).len() + ref_tx(t).len() }).sum::<usize>() { fail = Some("block-weight|Block::weight() is not 4 x (header + count) + the transaction weights".to_string()); }
+        return Out { result: format!("ok {} {}", size, weight), pred_fail: fail };
+    }
     let b = match unhex(w[4]) { Some(b) => b, None => return Out::ok("harnesserr hex".into()) };
     match w[1] {
         "tx" => match deserialize::<Transaction>(&b) {
@@ -94,14 +109,21 @@ pub fn gen(rng: &mut ChaCha20Rng, n: usize, thorough: bool) -> Vec<Case> {
         }
         out.push(case);
     }
+    // targeted: blocks built in memory whose transaction count sits on the upper compact-size thresholds (not decodable: allocation cap)
+    for &c in &[0xfffeusize, 0xffff, 0x10000] {
+        let mut tags = vec![format!("src:targeted-inmemory-block-txcount{:x}", c), "ty:blockrep".to_string()];
+        let h = c01::rheader(rng, &mut tags);
+        let t = Transaction { version: 2, lock_time: elements::LockTime::ZERO, input: vec![], output: vec![elements::TxOut { asset: elements::confidential::Asset::Explicit(elements::AssetId::from_byte_array(r32(rng))), value: elements::confidential::Value::Explicit(c as u64), nonce: elements::confidential::Nonce::Null, script_pubkey: elements::Script::from(vec![0x51]), witness: TxOutWitness::default() }] };
+        out.push(Case { text: format!("C12 blockrep {} - {},{},{}", c01::caps(), hex(&ref_header_vec(&h)), c, hex(&ref_tx(&t))), tags, nontrivial: true });
+    }
     for k in 0..n {
         let mut tags = vec!["src:structured".to_string()];
         if k % 8 == 7 {
-            let txs: Vec<Transaction> = (0..rng.gen_range(0..4)).map(|_| rtx(rng, Feat { big: false, no_witness: false }, &mut tags)).collect();
+            let txs: Vec<Transaction> = (0..rng.gen_range(0..4)).map(|_| rtx_stray(rng, Feat { big: false, no_witness: false }, &mut tags)).collect();
             let b = ref_block(&Block { header: c01::rheader(rng, &mut tags), txdata: txs });
             out.push(rename(c01::mk("block", &b, tags, true)));
         } else {
-            let tx = rtx(rng, Feat { big: thorough || k % 5 == 0, ..f }, &mut tags);
+            let tx = rtx_stray(rng, Feat { big: thorough || k % 5 == 0, ..f }, &mut tags);
             let nt = !tx.input.is_empty() || !tx.output.is_empty();
             out.push(rename(c01::mk("tx", &ref_tx(&tx), tags, nt)));
         }
